@@ -170,6 +170,17 @@ Definition nts_response_plain (cookies : list (list Z)) (idlen : nat) : outcome 
       end
   end.
 
+(* NewRequestPacket: the first held cookie, and placeholders for the cookies missing from the
+   pool of 8, as far as they fit next to it (numPlaceholders may be negative: none then) *)
+Definition nts_request_in (id : list Z) (held : list (list Z)) : option nts_in :=
+  match held with
+  | [] => None   (* ntskeData.Cookie[0] panics *)
+  | c0 :: _ =>
+      let np := Z.min (8 - Z.of_nat (length held)) (Z.of_nat (max_cookies (length id) (length c0)) - 1) in
+      Some {| ni_id := id; ni_cookies := [c0];
+              ni_placeholders := repeat (repeat 0 (length c0)) (Z.to_nat np) |}
+  end.
+
 (* authenticate, after Open: the walk over the decrypted extension fields; cookies are appended *)
 Fixpoint nts_auth_walk (fuel : nat) (pt : list Z) (pos : nat) (cs : list ext_val) : list ext_val * Z :=
   if (28 <=? length pt - pos)%nat then
